@@ -31,7 +31,8 @@ REPO = "/repo"
 GCMODEL = os.path.join(LEAN, ".lake", "build", "bin", "gcmodel")
 ALLOWED_AXIOMS = {"propext", "Classical.choice", "Quot.sound"}
 FORBIDDEN = re.compile(
-    r"\b(sorry|admit|native_decide|bv_decide|implemented_by|unsafe )|^axiom |maxHeartbeats 0", re.M
+    r"\b(sorry|admit|native_decide|bv_decide|implemented_by|unsafe )|^\s*(private |protected |@\[[^\]]*\]\s*)*axiom\b"
+    r"|maxHeartbeats 0|decide \+native|@\[extern|@\[csimp", re.M
 )
 NCPU = min(16, os.cpu_count() or 4)
 
@@ -142,6 +143,19 @@ def _apply_lock(prop, res):
     if missing and res.get("build_ok"):
         res["open"] = res.get("open", []) + [m + " (listed in obligations.lock.json, no longer present)" for m in missing]
         res["obligations"] += len(missing)
+    # the lock also pins WHAT each theorem says: a structural hash of the elaborated statement and
+    # of every GcArena definition it rests on (lean/GcArena/Audit/StmtHash.lean).  A theorem that
+    # still has its name but no longer its statement does not discharge the locked obligation.
+    try:
+        pinned = json.load(open(path)).get("_stmt", {})
+    except Exception:
+        pinned = {}
+    for t in res.get("theorems", []):
+        want = pinned.get(t["name"])
+        if want is not None and t.get("stmt") is not None and str(want) != str(t["stmt"]) and t.get("ok"):
+            t["ok"] = False
+            res["discharged"] -= 1
+            res["open"] = res.get("open", []) + [t["name"] + " (its statement, or a definition the statement rests on, differs from the one accepted in obligations.lock.json)"]
     return res
 
 
@@ -160,15 +174,17 @@ def _lean_obligations_one(prop):
     ns = re.search(r"^namespace\s+(\S+)", code, flags=re.M)
     prefix = (ns.group(1) + ".") if ns else ""
     # forbidden tokens anywhere in the library (comments stripped)
-    for dirpath, _, files in os.walk(os.path.join(LEAN, "GcArena")):
-        for f in files:
+    scan = [(dp, f) for dp, _, fs in os.walk(os.path.join(LEAN, "GcArena")) for f in fs]
+    scan += [(LEAN, f) for f in os.listdir(LEAN)]          # the model drivers carry the T1 tie
+    for dirpath, f in scan:
+        if True:
             if f.endswith(".lean"):
                 t = open(os.path.join(dirpath, f)).read()
                 t = re.sub(r"/-.*?-/", "", t, flags=re.S)
                 t = re.sub(r"--.*", "", t)
                 for m in FORBIDDEN.finditer(t):
                     res["forbidden"].append(f"{f}: {m.group(0).strip()}")
-    ok, out = build_lean([f"GcArena.Props.{prop}"])
+    ok, out = build_lean([f"GcArena.Props.{prop}", "GcArena.Audit.StmtHash"])
     res["build_ok"] = ok
     res["build_log"] = out[-4000:]
     names = list(dict.fromkeys(theorems))
@@ -184,9 +200,11 @@ def _lean_obligations_one(prop):
     os.makedirs(WORK, exist_ok=True)
     audit = os.path.join(WORK, f"Audit_{prop}.lean")
     with open(audit, "w") as f:
-        f.write(f"import GcArena.Props.{prop}\n")
+        f.write(f"import GcArena.Audit.StmtHash\nimport GcArena.Props.{prop}\n")
         for n in names:
             f.write(f"#print axioms {prefix}{n}\n")
+        if names:
+            f.write("#stmt_hash " + " ".join(prefix + n for n in names) + "\n")
     rc, out = run(["lake", "env", "lean", audit], cwd=LEAN, timeout=1200)
     blocks = re.split(r"(?=^'[^']+' )", out, flags=re.M)
     info = {}
@@ -195,12 +213,13 @@ def _lean_obligations_one(prop):
         if m:
             axs = [] if m.group(3) is None else [a.strip() for a in m.group(3).replace("\n", " ").split(",")]
             info[m.group(1)] = axs
+    stmt = dict(re.findall(r"STMT (\S+) (\d+)", out))
     for n in wanted:
         full = prefix + n
         if n in names and full in info:
             axs = info[full]
             good = set(axs) <= ALLOWED_AXIOMS
-            res["theorems"].append(dict(name=full, axioms=axs, ok=good))
+            res["theorems"].append(dict(name=full, axioms=axs, ok=good, stmt=stmt.get(full)))
             if good:
                 res["discharged"] += 1
             else:
